@@ -55,7 +55,7 @@ func runC02(ctx *Ctx) {
 		return
 	}
 	maxc := 2
-	budget := 80 * time.Second
+	budget := 10 * time.Minute // (seconds on an idle machine; a busy one must not shrink the quick tier)
 	if ctx.Thorough {
 		maxc = 4
 		budget = 14 * time.Minute
